@@ -13,6 +13,11 @@ R11c instance leak: from the creation of a UOD command instance every path to an
 R11d finalize must-call dispose (UodCommand.finalize -> context.dispose_command, and
      InternalEngineCommand.finalize -> registry.dispose_command): a finalized instance is no longer
      found by has_command_instance.
+R11e provenance: _finalize_command calls finalize() without testing is_finalized() itself (it only warns), which is safe only
+     because every instance handed to it was just looked up in - or created into - the registries that finalize() removes
+     instances from (registry.get_running_command, uod.get_command / create_command, create_internal_command; helper
+     returns are followed). An instance taken from anywhere else (e.g. a reference kept on the request) can be a finalized
+     one and is finalized twice. If _finalize_command becomes idempotent the provenance no longer matters.
 Decides the lifecycle structure; double finalisation under exceptions in UOD callbacks is not decided.
 """
 from __future__ import annotations
@@ -147,6 +152,44 @@ def run(ctx) -> None:
                         ctx.ok("R11b", inst)
                     else:
                         ctx.fail("R11b", fn, c, inst, "finalize() called without a not-yet-finalized guard: an instance could be finalized twice")
+    # ---- R11e: what reaches the unguarded finalize in _finalize_command
+    ctx.rule("R11e", "only instances looked up in the live registries reach a finalisation that is not guarded itself")
+    from ..util import value_leaves
+    cmcls = cmmod.classes["CommandManager"]
+    fin = cmcls.methods.get("_finalize_command")
+    if fin is None:
+        raise AnchorError("CommandManager._finalize_command missing")
+    gf = cfg_of(fin)
+    fcalls = [(n, c) for n in gf.nodes for c in n.calls() if call_attr(c) == "finalize" and isinstance(c.func, ast.Attribute)]
+    if not fcalls:
+        raise AnchorError("_finalize_command: finalize() call not found")
+    idempotent = all(any("is_finalized()" in a and not pol for a, pol in facts_at(gf, n)) for n, c in fcalls)
+    LIVE = {"get_running_command", "get_command", "create_command", "create_internal_command"}
+    n_sites = 0
+    for fn in cmcls.methods.values():
+        for c in walk_no_nested(fn.node):
+            if isinstance(c, ast.Call) and call_attr(c) == "_finalize_command" and len(c.args) >= 2:
+                n_sites += 1
+                inst = f"{fn.short}: instance handed to _finalize_command is a live one"
+                if idempotent:
+                    ctx.ok("R11e", inst + " (finalisation is idempotent)", trivial=True)
+                    continue
+                stale = []
+                for leaf, lf in value_leaves(ctx.res, c.args[1], fn, stop=lambda x: call_attr(x) in LIVE):
+                    if isinstance(leaf, ast.Constant) and leaf.value is None:
+                        continue
+                    if isinstance(leaf, ast.Call) and call_attr(leaf) in LIVE:
+                        continue
+                    stale.append((leaf, lf))
+                if not stale:
+                    ctx.ok("R11e", inst)
+                else:
+                    leaf, lf = stale[0]
+                    ctx.fail("R11e", fn, c, inst, f"the instance can come from `{norm(leaf)}` ({lf.short}), which is not a lookup in the registries "
+                             "that finalize() removes instances from: it can be an instance that has already been finalized, and "
+                             "_finalize_command calls finalize() on it again (it only warns)")
+    if n_sites < 3:
+        raise AnchorError(f"only {n_sites} _finalize_command call sites found (floor 3)")
     # ---- R11c
     def settles(n) -> bool:
         return any(call_attr(c) in ("execute", "_finalize_command", "_cancel_command", "finalize") for c in n.calls())
